@@ -35,6 +35,10 @@ typedef struct carquet_statistics_builder {
     size_t min_len;
     size_t max_len;
 
+    /* A value too large for min_value/max_value was seen and left out of the
+     * comparison: min/max no longer bound the data and are not emitted. */
+    bool skipped_oversized;
+
     /* For computing distinct count (simple approximation) */
     /* Full HyperLogLog would be better but more complex */
 } carquet_statistics_builder_t;
@@ -149,6 +153,7 @@ void carquet_statistics_builder_reset(carquet_statistics_builder_t* builder) {
     builder->num_values = 0;
     builder->min_len = 0;
     builder->max_len = 0;
+    builder->skipped_oversized = false;
 }
 
 /* ============================================================================
@@ -306,8 +311,9 @@ carquet_status_t carquet_statistics_add_byte_arrays(
         const uint8_t* val = values[i].data;
         size_t val_len = (size_t)values[i].length;
 
-        /* Skip if too large */
+        /* Too large to track: min/max can no longer be bounds */
         if (val_len > sizeof(builder->min_value)) {
+            builder->skipped_oversized = true;
             continue;
         }
 
@@ -377,7 +383,7 @@ carquet_status_t carquet_statistics_build(
     }
 
     /* Min value */
-    if (builder->has_min && builder->min_len > 0) {
+    if (builder->has_min && builder->min_len > 0 && !builder->skipped_oversized) {
         if (arena) {
             stats->min_value = carquet_arena_memdup(arena,
                 builder->min_value, builder->min_len);
@@ -395,7 +401,7 @@ carquet_status_t carquet_statistics_build(
     }
 
     /* Max value */
-    if (builder->has_max && builder->max_len > 0) {
+    if (builder->has_max && builder->max_len > 0 && !builder->skipped_oversized) {
         if (arena) {
             stats->max_value = carquet_arena_memdup(arena,
                 builder->max_value, builder->max_len);
